@@ -265,7 +265,18 @@ mod verif_hashtbl {
     /// Table with N slots (allocated by the real `with_capacity`), every slot overwritten with a
     /// symbolic state, `len`/`free` symbolic. NOT yet constrained by `wf`.
     fn any_table<const N: usize>(h: &H, nk: u8) -> Tbl {
-        let mut t = Tbl::with_capacity(N / 4 * 3);
+        any_table_from::<N>(h, nk, false)
+    }
+    /// `direct`: allocate the N slots exactly like `with_capacity` does but without calling
+    /// `next_capacity` (for harnesses that stub `next_capacity` with a class not containing N/4*3)
+    fn any_table_from<const N: usize>(h: &H, nk: u8, direct: bool) -> Tbl {
+        let mut t = if direct {
+            let mut data = Vec::with_capacity(N);
+            data.resize_with(N, || Slot::FREE);
+            RawTable { data: data.into_boxed_slice(), len: 0, free: N, phantom: PhantomData }
+        } else {
+            Tbl::with_capacity(N / 4 * 3)
+        };
         assert!(t.data.len() == N);
         let mut i = 0;
         while i < N {
@@ -855,7 +866,8 @@ mod verif_hashtbl {
     /// (no shrink / rehash to 16 / rehash to 0) so that the allocation size is a constant.
     fn retain_case(lo: usize, hi: usize, old_nonempty: bool) {
         let h: H = kani::any();
-        let mut t = any_wf16(&h);
+        let mut t = any_table_from::<16>(&h, NK, old_nonempty && hi == 0);
+        kani::assume(wf(&t, &h, NK));
         let keep: u32 = kani::any::<u8>() as u32;
         let s = snap::<16>(&t);
         let survivors = (s.view & keep).count_ones() as usize;
@@ -886,12 +898,21 @@ mod verif_hashtbl {
         assert!(!s.exact || free_exact(&t));
         let n = t.data.len();
         assert!(n == 16 || n == 0);
-        kani::cover!(n == 0);
-        kani::cover!(n == 16 && survivors == hi && s.len == NK as usize);
-        if n == 16 {
+        if !old_nonempty {
+            assert!(unchanged::<16>(&t, &s));
+            kani::cover!(s.free < 16, "empty table with tombstones");
+        } else if hi == 0 {
+            assert!(n == 0); // shrunk to the zero-capacity table
+            kani::cover!(s.len == NK as usize);
+        } else if lo >= 4 {
+            assert!(n == 16);
+            kani::cover!(survivors == 4 && s.len == NK as usize);
             // tombstone compaction without rehash
-            kani::cover!(t.len + t.free > s.len + s.free && survivors >= 4, "tombstones were turned into FREE");
+            kani::cover!(t.len + t.free > s.len + s.free, "tombstones were turned into FREE");
             kani::cover!(st(&t, 15) == S_TOMB && s_occ(s.st[15]), "rejected element became a tombstone");
+        } else {
+            assert!(n == 16);
+            kani::cover!(survivors == 3 && s.len == NK as usize);
         }
         core::mem::forget(t);
     }
